@@ -70,6 +70,8 @@ enum Par {
 /// Revisions are named by creation order (0 = root).
 #[derive(Clone, Debug, PartialEq, Eq, PartialOrd, Ord, Serialize, Deserialize)]
 enum Ev {
+    /// First event: the configuration (number of delegates of the initial document).
+    Cfg(u8),
     Propose { by: u8, doc: u8, parent: Par, sig: Sig },
     Accept { by: u8, rev: u8, sig: Sig },
     Reject { by: u8, rev: u8 },
@@ -80,11 +82,13 @@ enum Ev {
 impl Ev {
     fn by(&self) -> u8 {
         match self {
+            Ev::Cfg(_) => 0,
             Ev::Propose { by, .. } | Ev::Accept { by, .. } | Ev::Reject { by, .. } | Ev::Edit { by, .. } | Ev::Redact { by, .. } => *by,
         }
     }
     fn kind(&self) -> &'static str {
         match self {
+            Ev::Cfg(_) => "cfg",
             Ev::Propose { .. } => "propose",
             Ev::Accept { .. } => "accept",
             Ev::Reject { .. } => "reject",
@@ -102,9 +106,12 @@ struct DocInfo {
 }
 
 struct Fix {
-    base: PathBuf,
     repo_path: PathBuf,
     rid: RepoId,
+    n_del: usize,
+    /// Bounds of this configuration (events after `Cfg`).
+    depth: usize,
+    max_devs: usize,
     actors: Vec<Device<MockSigner>>,
     keys: Vec<PublicKey>,
     docs: Vec<DocInfo>,
@@ -118,49 +125,51 @@ struct Fix {
     /// (actor, doc, signature bytes) -> verifies under the raw ed25519 check
     valid: BTreeMap<(u8, u8, Vec<u8>), bool>,
     pool: Vec<PublicKey>,
-    stride: u64,
 }
 
-static FIX: OnceLock<Fix> = OnceLock::new();
-fn fix() -> &'static Fix {
-    FIX.get().expect("fixture")
+static FIXES: OnceLock<Vec<Fix>> = OnceLock::new();
+static BASE: OnceLock<PathBuf> = OnceLock::new();
+static STRIDE: OnceLock<u64> = OnceLock::new();
+fn fixes() -> &'static [Fix] {
+    FIXES.get().expect("fixtures")
+}
+fn fix_for(n_del: u8) -> &'static Fix {
+    fixes().iter().find(|f| f.n_del == n_del as usize).unwrap_or_else(|| die(&format!("no configuration with {n_del} delegates in this run")))
 }
 
 thread_local! {
-    static REPO: RefCell<Option<Repository>> = const { RefCell::new(None) };
-    static WREPO: RefCell<Option<Repository>> = const { RefCell::new(None) };
+    static REPO: RefCell<BTreeMap<usize, Repository>> = const { RefCell::new(BTreeMap::new()) };
+    static WREPO: RefCell<BTreeMap<usize, Repository>> = const { RefCell::new(BTreeMap::new()) };
 }
 static WCOUNT: AtomicUsize = AtomicUsize::new(0);
 static STRIDE_SET: Mutex<BTreeSet<String>> = Mutex::new(BTreeSet::new());
 
 /// Read-only handle on the fixture repository (one per thread; git2 handles are not `Sync`).
-fn with_repo<T>(f: impl FnOnce(&Repository) -> T) -> T {
+fn with_repo<T>(fx: &'static Fix, f: impl FnOnce(&Repository) -> T) -> T {
     REPO.with(|c| {
         let mut c = c.borrow_mut();
-        if c.is_none() {
-            *c = Some(Repository::open(&fix().repo_path, fix().rid).expect("open fixture repository"));
-        }
-        f(c.as_ref().unwrap())
+        let r = c.entry(fx.n_del).or_insert_with(|| Repository::open(&fx.repo_path, fx.rid).expect("open fixture repository"));
+        f(r)
     })
 }
 
 /// Private writable copy of the fixture repository (one per thread) for conformance replays.
-fn with_wrepo<T>(f: impl FnOnce(&Repository) -> T) -> T {
+fn with_wrepo<T>(fx: &'static Fix, f: impl FnOnce(&Repository) -> T) -> T {
     WREPO.with(|c| {
         let mut c = c.borrow_mut();
-        if c.is_none() {
+        let r = c.entry(fx.n_del).or_insert_with(|| {
             let n = WCOUNT.fetch_add(1, Ordering::Relaxed);
-            let dst = fix().base.join(format!("w{n}"));
-            copy_dir(&fix().repo_path, &dst);
-            *c = Some(Repository::open(&dst, fix().rid).expect("open repository copy"));
-        }
-        f(c.as_ref().unwrap())
+            let dst = BASE.get().expect("base").join(format!("w{n}"));
+            copy_dir(&fx.repo_path, &dst);
+            Repository::open(&dst, fx.rid).expect("open repository copy")
+        });
+        f(r)
     })
 }
 
 fn cleanup() {
-    if let Some(f) = FIX.get() {
-        let _ = std::fs::remove_dir_all(&f.base);
+    if let Some(b) = BASE.get() {
+        let _ = std::fs::remove_dir_all(b);
     }
 }
 
@@ -169,8 +178,8 @@ fn die(msg: &str) -> ! {
     machinery(msg)
 }
 
-fn build_fixture(n_del: usize, menu: Vec<u8>, max_revs: usize, stride: u64) -> Fix {
-    let base = tempfile::Builder::new().prefix("verif-c04-").tempdir().expect("tempdir").into_path();
+fn build_fixture(base: &std::path::Path, n_del: usize, menu: Vec<u8>, max_revs: usize, depth: usize, max_devs: usize) -> Fix {
+    let base = base.join(format!("n{n_del}"));
     // Actors: seeds 1.. ; the last one is the stranger.
     let actors: Vec<Device<MockSigner>> = (0..=n_del).map(|i| dev(i as u8 + 1)).collect();
     let keys: Vec<PublicKey> = actors.iter().map(|a| *a.public_key()).collect();
@@ -225,7 +234,7 @@ fn build_fixture(n_del: usize, menu: Vec<u8>, max_revs: usize, stride: u64) -> F
     }
     let mut pool = vec![keys[0]];
     pool.extend((0..12u8).map(|i| *dev(200 + i).public_key()));
-    Fix { base, repo_path, rid, actors, keys, docs, menu, max_revs, root, initial, sigs, valid, pool, stride }
+    Fix { repo_path, rid, n_del, depth, max_devs, actors, keys, docs, menu, max_revs, root, initial, sigs, valid, pool }
 }
 
 #[derive(Clone)]
@@ -239,6 +248,8 @@ struct RevInfo {
 
 #[derive(Clone)]
 struct Sys {
+    /// Configuration, once chosen by the first event.
+    f: Option<&'static Fix>,
     id: Identity,
     /// Model: revisions by creation order.
     revs: Vec<RevInfo>,
@@ -252,10 +263,21 @@ struct Sys {
 
 impl Sys {
     fn new() -> Sys {
-        let f = fix();
-        let mut signed = BTreeSet::new();
-        signed.insert((0, 0)); // the founder signed the initial document
-        Sys { id: f.initial.clone(), revs: vec![RevInfo { id: f.root, doc: 0, parent: None, link_ok: None }], signed, hist: vec![], applied: vec![] }
+        // Placeholder object until `Cfg` picks the configuration.
+        let f = &fixes()[0];
+        Sys { f: None, id: f.initial.clone(), revs: vec![], signed: BTreeSet::new(), hist: vec![], applied: vec![] }
+    }
+
+    fn fx(&self) -> &'static Fix {
+        self.f.expect("configured")
+    }
+
+    fn configure(&mut self, n_del: u8) {
+        let f = fix_for(n_del);
+        self.f = Some(f);
+        self.id = f.initial.clone();
+        self.revs = vec![RevInfo { id: f.root, doc: 0, parent: None, link_ok: None }];
+        self.signed.insert((0, 0)); // the founder signed the initial document
     }
 
     fn rev_ix(&self, id: &Oid) -> Option<u8> {
@@ -267,11 +289,11 @@ impl Sys {
     }
 
     fn is_delegate_of(&self, rev: u8, actor: u8) -> bool {
-        fix().docs[self.revs[rev as usize].doc as usize].delegates.contains(&actor)
+        self.fx().docs[self.revs[rev as usize].doc as usize].delegates.contains(&actor)
     }
 
     fn sig_valid(&self, actor: u8, doc: u8, sig: &Signature) -> bool {
-        let f = fix();
+        let f = self.fx();
         match f.valid.get(&(actor, doc, AsRef::<[u8]>::as_ref(sig).to_vec())) {
             Some(v) => *v,
             None => f.keys[actor as usize].verify(f.docs[doc as usize].blob.as_bytes(), sig).is_ok(),
@@ -280,7 +302,7 @@ impl Sys {
 
     /// The action an event stands for, with the given id mapping (in-memory or real).
     fn action(&self, ev: &Ev, rev_id: &dyn Fn(u8) -> Oid) -> Action {
-        let f = fix();
+        let f = self.fx();
         match ev {
             Ev::Propose { by, doc, parent, sig } => {
                 let cur = self.cur_ix();
@@ -303,6 +325,7 @@ impl Sys {
             Ev::Reject { rev, .. } => Action::RevisionReject { revision: rev_id(*rev) },
             Ev::Edit { rev, .. } => Action::RevisionEdit { revision: rev_id(*rev), title: "edited".to_string(), description: "edited".to_string() },
             Ev::Redact { rev, .. } => Action::RevisionRedact { revision: rev_id(*rev) },
+            Ev::Cfg(_) => unreachable!("Cfg is not an operation"),
         }
     }
 
@@ -311,7 +334,7 @@ impl Sys {
         let mut out = Vec::with_capacity(256);
         let name = |id: &Oid| self.rev_ix(id).map(|i| i as i16).unwrap_or(-1);
         out.extend_from_slice(&name(&self.id.current).to_le_bytes());
-        let f = fix();
+        let f = self.fx();
         for (did, rev) in &self.id.heads {
             let a = f.keys.iter().position(|k| Did::from(k) == *did).map(|i| i as u8).unwrap_or(0xff);
             out.push(a);
@@ -346,7 +369,7 @@ impl Sys {
     }
 
     fn describe(&self) -> Value {
-        let f = fix();
+        let f = self.fx();
         let revs: Vec<Value> = self
             .revs
             .iter()
@@ -372,7 +395,7 @@ impl Sys {
     /// I1 for the link parent(y) → y: the delegates of the replaced document that have a valid
     /// signature over y's blob in `Revision::signatures()`; `None` if y is redacted.
     fn link_signers(&self, y: u8) -> Option<(u8, Vec<u8>)> {
-        let f = fix();
+        let f = self.fx();
         let x = self.revs[y as usize].parent?;
         let dels = &f.docs[self.revs[x as usize].doc as usize].delegates;
         let ydoc = self.revs[y as usize].doc;
@@ -384,7 +407,7 @@ impl Sys {
     /// I1. At the step that makes `y` current the new link is judged (and the witness classified);
     /// on every later state the links that were sound when created are re-judged.
     fn check_i1(&mut self, adopted: Option<u8>, vs: &mut Vec<Violation>) {
-        let f = fix();
+        let f = self.fx();
         let names = |v: &[u8]| v.iter().map(|i| ACTOR_NAMES[*i as usize]).collect::<Vec<_>>().join(",");
         let mut y = self.cur_ix();
         while self.revs[y as usize].parent.is_some() {
@@ -444,7 +467,9 @@ impl Sys {
 
     /// Materialise this history as real commits and evaluate with `Identity::get`.
     fn conformance(hist: &[Ev]) -> Result<(), String> {
-        let f = fix();
+        let Some(Ev::Cfg(n)) = hist.first() else { return Ok(()) };
+        let f = fix_for(*n);
+        let hist_ops = &hist[1..];
         let mut mem = Sys::new();
         for ev in hist {
             let _ = mem.step(ev);
@@ -453,12 +478,13 @@ impl Sys {
             let names: Vec<(String, String)> = (0..=hist.len() as u32).map(|i| (hex(&syn_oid(i)), format!("#op{i}"))).collect();
             canon_json(&mem.id, &names, &["timeline"], &[])
         };
-        with_wrepo(|repo| {
+        with_wrepo(f, |repo| {
             let mut comb = Comb::new(repo, identity::TYPENAME.clone(), f.root);
             let mut replay = Sys::new(); // supplies `action()` with the model state before each op
+            let _ = replay.step(&hist[0]);
             let mut real_ids: Vec<Oid> = vec![f.root]; // revision (creation index) -> real commit
             let mut names: Vec<(String, String)> = vec![];
-            for (i, ev) in hist.iter().enumerate() {
+            for (i, ev) in hist_ops.iter().enumerate() {
                 let action = replay.action(ev, &|r| real_ids[r as usize]);
                 let embeds = match ev {
                     Ev::Propose { doc, .. } => vec![Embed { name: "radicle.json".to_string(), content: f.docs[*doc as usize].blob }],
@@ -488,7 +514,12 @@ impl System for Sys {
     type Ev = Ev;
 
     fn enabled(&self) -> Vec<Ev> {
-        let f = fix();
+        let Some(f) = self.f else {
+            return fixes().iter().map(|f| Ev::Cfg(f.n_del as u8)).collect();
+        };
+        if self.applied.len() >= f.depth {
+            return vec![]; // per-configuration depth bound
+        }
         let mut out = vec![];
         let n_act = f.actors.len() as u8;
         let cur = self.cur_ix();
@@ -519,7 +550,10 @@ impl System for Sys {
     }
 
     fn is_deviation(&self, ev: &Ev) -> bool {
-        let f = fix();
+        if matches!(ev, Ev::Cfg(_)) {
+            return false;
+        }
+        let f = self.fx();
         if !self.is_delegate_of(self.cur_ix(), ev.by()) {
             return true; // stranger (with respect to the current document)
         }
@@ -532,13 +566,18 @@ impl System for Sys {
     }
 
     fn step(&mut self, ev: &Ev) -> StepOut {
-        let f = fix();
+        if let Ev::Cfg(n) = ev {
+            self.configure(*n);
+            self.hist.push(ev.clone());
+            return StepOut::ok(format!("cfg:{n}-delegates"));
+        }
+        let f = self.fx();
         let by = ev.by();
         let pre_cur = self.cur_ix();
         let pre_full = self.snapshot(true);
         let pre_text = self.id.revision(&self.id.current).map(|r| (r.title.clone(), r.description.clone()));
         let author_is_delegate = self.is_delegate_of(pre_cur, by);
-        let n = self.hist.len() as u32 + 1;
+        let n = self.applied.len() as u32 + 1;
         let op_id = syn_oid(n);
         let action = self.action(ev, &|r| self.revs[r as usize].id);
         // Model: signatures that verify under the raw primitive count as "submitted".
@@ -555,7 +594,7 @@ impl System for Sys {
             _ => {}
         }
         let op = Op::new(op_id, nonempty::NonEmpty::new(action), f.keys[by as usize], Timestamp::from_secs(T0), None, Manifest::new(identity::TYPENAME.clone(), cob::Version::default()));
-        let result = with_repo(|repo| self.id.op(op, std::iter::empty::<&cob::Entry>(), repo));
+        let result = with_repo(f, |repo| self.id.op(op, std::iter::empty::<&cob::Entry>(), repo));
         let mut made = None;
         if let Ev::Propose { doc, parent, .. } = ev {
             if self.id.revision(&op_id).is_some() {
@@ -600,7 +639,7 @@ impl System for Sys {
         // I3
         if !author_is_delegate && self.snapshot(true) != pre_full {
             vs.push(Violation::new(
-                format!("C04/I3-non-delegate-changed-identity/by-{}", ev.kind()),
+                "C04/I3-non-delegate-changed-identity".to_string(),
                 format!("{} is not a delegate of the current document (rev{pre_cur}) but its {} changed the identity state", ACTOR_NAMES[by as usize], ev.kind()),
                 json!({"state": self.describe()}),
             ));
@@ -614,9 +653,10 @@ impl System for Sys {
         };
         let moved = if post_cur != pre_cur { "+adopted" } else { "" };
         let who = if author_is_delegate { "delegate" } else { "non-delegate" };
-        if fix().stride > 0 {
+        let stride = *STRIDE.get().unwrap_or(&0);
+        if stride > 0 {
             let key = serde_json::to_string(&self.hist).expect("hist");
-            if mcx::fnv64(key.as_bytes()) % fix().stride == 0 {
+            if mcx::fnv64(key.as_bytes()) % stride == 0 {
                 STRIDE_SET.lock().unwrap().insert(key);
             }
         }
@@ -624,7 +664,9 @@ impl System for Sys {
     }
 
     fn canon(&self) -> Vec<u8> {
-        let mut out = self.snapshot(false);
+        let Some(f) = self.f else { return b"unconfigured".to_vec() };
+        let mut out = vec![f.n_del as u8];
+        out.extend(self.snapshot(false));
         out.push(0xfb);
         for r in &self.revs {
             out.push(r.doc);
@@ -677,16 +719,24 @@ fn main() {
     let ctx = Ctx::from_env("C04", "model_checking");
     let thorough = ctx.tier == mcx::Tier::Thorough;
     let replaying = ctx.replay.is_some();
-    // quick: 4 delegates + stranger, D=5, K<=2; thorough: 5 delegates + stranger, D=7, K<=3.
-    let (n_del, menu, max_revs, depth, devs, stride) = if thorough { (5usize, vec![1u8, 2, 3], 4usize, 7usize, 3usize, 50u64) } else { (4, vec![1, 2], 3, 5, 2, 0) };
-    let witness = ctx.replay_witness();
-    let n_del = witness.as_ref().and_then(|w| w.pointer("/detail/config/delegates")).and_then(Value::as_u64).map(|n| n as usize).unwrap_or(n_del);
-    let fixture = build_fixture(n_del, if replaying { vec![1, 2, 3] } else { menu }, if replaying { 16 } else { max_revs }, stride);
-    if FIX.set(fixture).is_err() {
+    // (delegates, documents offered, max revisions, depth) per configuration; K is global.
+    // quick: 4 delegates + stranger, D=5, K<=2. thorough: 4 delegates D=6 (documents: remove a delegate /
+    // add the stranger) and 5 delegates D=5 (documents: remove a delegate / threshold 2), K<=2.
+    // The design's 5 delegates / D=7 / K<=3 was measured at > 10^9 transitions (~45 us each, dominated by the
+    // implementation's own signature verification): 4+5 delegates, 3 documents, D=5, K<=3 alone is 1.4*10^8.
+    let (configs, devs, stride): (Vec<(usize, Vec<u8>, usize, usize)>, usize, u64) =
+        if thorough { (vec![(4, vec![1, 2], 3, 6), (5, vec![1, 3], 3, 5)], 2, 10007) } else { (vec![(4, vec![1, 2], 3, 5)], 2, 0) };
+    let configs = if replaying { vec![(4, vec![1, 2, 3], 16, 64), (5, vec![1, 2, 3], 16, 64)] } else { configs };
+    let base = tempfile::Builder::new().prefix("verif-c04-").tempdir().expect("tempdir").into_path();
+    let _ = BASE.set(base.clone());
+    let _ = STRIDE.set(stride);
+    let fixtures: Vec<Fix> = configs.iter().map(|(n, menu, max_revs, depth)| build_fixture(&base, *n, menu.clone(), *max_revs, *depth, devs)).collect();
+    if FIXES.set(fixtures).is_err() {
         unreachable!();
     }
+    let depth = 1 + configs.iter().map(|c| c.3).max().unwrap();
 
-    if let Some(w) = witness {
+    if let Some(w) = ctx.replay_witness() {
         let vs = explore::replay("C04", Sys::new, &w);
         let hist: Vec<Ev> = serde_json::from_value(w.get("history").cloned().unwrap_or(Value::Null)).unwrap_or_default();
         match Sys::conformance(&hist) {
@@ -697,19 +747,7 @@ fn main() {
         ctx.finish_replay(vs);
     }
 
-    let mut res = explore::explore("C04", Sys::new, Bounds::new(depth, devs).wall_secs(if thorough { 900 } else { 120 }));
-    // Attach the configuration to every witness (needed by --replay).
-    for (_, (ws, _)) in res.violations.by_fp.iter_mut() {
-        for w in ws.iter_mut() {
-            if let Some(d) = w.witness.get_mut("detail") {
-                if let Some(o) = d.as_object_mut() {
-                    o.insert("config".into(), json!({"delegates": n_del}));
-                } else {
-                    *d = json!({"config": {"delegates": n_del}});
-                }
-            }
-        }
-    }
+    let mut res = explore::explore("C04", Sys::new, Bounds::new(depth, devs).wall_secs(if thorough { 1500 } else { 300 }));
 
     // Conformance: every violating witness + the stride of executed histories.
     let mut todo: BTreeSet<String> = std::mem::take(&mut *STRIDE_SET.lock().unwrap());
@@ -742,7 +780,10 @@ fn main() {
     );
     cov.insert("conformance_replays".into(), json!(st.evaluations));
     cov.insert("conformance_stride".into(), json!(if stride > 0 { format!("1 in {stride} of all executed histories (by hash): {stride_n}") } else { "violating witnesses only".to_string() }));
-    cov.insert("config".into(), json!({"delegates": n_del, "stranger": 1, "documents": fix().menu.iter().map(|d| fix().docs[*d as usize].what).collect::<Vec<_>>(), "max_revisions": max_revs, "depth": depth, "deviations": devs}));
+    cov.insert(
+        "config".into(),
+        json!(fixes().iter().map(|f| json!({"delegates": f.n_del, "stranger": 1, "documents": f.menu.iter().map(|d| f.docs[*d as usize].what).collect::<Vec<_>>(), "max_revisions_incl_root": f.max_revs, "depth": f.depth, "deviations": f.max_devs})).collect::<Vec<_>>()),
+    );
     let violations = std::mem::take(&mut res.violations);
     cleanup();
     ctx.finish(
